@@ -78,6 +78,11 @@ def gen_case(r, i, tier):
     bounded = bool(pre and pre.get("bounded_to_unbounded"))
     if bounded:
         z = r.normal(0, 1.5, (n, dims))
+        if r.random() < 0.35:
+            # a kernel state far out in the unbounded space (pre-image within ~1e-6 .. 1e-12 of a prior bound): beyond the
+            # clipping margin of the forward map, where the INVERSE map's own Jacobian must still be used
+            far = r.random((n, dims)) < 0.5
+            z = np.where(far, np.sign(z) * r.uniform(12.0, 28.0, (n, dims)), z)
     else:
         z = r.uniform(-1.6 * cfg["half"], 1.6 * cfg["half"], (n, dims))     # some pre-images fall outside the prior box
     cfg["z"] = z.tolist()
@@ -118,8 +123,43 @@ def run_case(c):
         ll = target.like_np(x_pre)
         lp = target.prior_np(x_pre)
         lq = flow._lp(x_pre)
-    return {"out": out, "x": x_pre, "j": j, "ll": ll, "lp": lp, "lq": lq, "seen": seen, "smc": smc,
+    aff = getattr(tr, "_affine_transform", None)
+    aff_state = None
+    if aff is not None and getattr(aff, "_mean", None) is not None:
+        aff_state = (ns.to_np(aff._mean).reshape(-1).astype(float), ns.to_np(aff._std).reshape(-1).astype(float))
+    return {"out": out, "x": x_pre, "j": j, "ll": ll, "lp": lp, "lq": lq, "seen": seen, "smc": smc, "affine": aff_state,
             "width": ns.width_of(tr.inverse(z_in)[0]) if True else None}
+
+
+def jacobian_reference(c, o):
+    """log|det dx/dz| of the composite preconditioning map at z, in closed form and WITHOUT the implementation's transform code:
+    affine stage u = z*std + mean (sum log|std|), then per coordinate: periodic / free 0, logit log(hi-lo) + log sigmoid'(u),
+    probit log(hi-lo) + log phi(u).  None for the identity / non-composite case."""
+    pre = c["precond"]
+    if not pre:
+        return None
+    z = np.asarray(c["z"], dtype=float)
+    u, lj = z, np.zeros(len(z))
+    cond = np.zeros(len(z))      # conditioning of the implementation's formula log(x) + log1p(-x) at x = sigmoid(u): ~ exp(|u|) ulps
+    if pre.get("affine_transform"):
+        if o["affine"] is None:
+            return None
+        mean, std = o["affine"]
+        u = z * std + mean
+        lj = lj + np.sum(np.log(np.abs(std)))
+    if pre.get("bounded_to_unbounded"):
+        per = set(pre.get("periodic", []))
+        width = 2 * c["half"]
+        for k in range(z.shape[1]):
+            if k in per:
+                continue
+            if pre.get("bounded_transform", "probit") == "logit":
+                a = np.abs(u[:, k])
+                lj = lj + np.log(width) - a - 2 * np.log1p(np.exp(-a))
+                cond = cond + np.exp(np.minimum(a, 700.0))
+            else:
+                lj = lj + np.log(width) - 0.5 * (np.log(2 * np.pi) + u[:, k] ** 2)
+    return lj, cond
 
 
 def check_cases(chk, cases):
@@ -175,6 +215,16 @@ def check_cases(chk, cases):
                 exp = np.where(np.isnan(exp), -np.inf, exp)
             else:
                 exp = o["ll"] + o["lp"] + o["j"]
+        jref = jacobian_reference(c, o)
+        if jref is not None:
+            jref, jcond = jref
+            jtol = (1e-7 if not f32 else 5e-3) * (1 + np.abs(jref)) + 16 * (2.0 ** -52 if not f32 else 2.0 ** -23) * jcond
+            badj = [k for k in range(len(jref)) if np.isfinite(jref[k]) and np.isfinite(o["j"][k]) and abs(jref[k] - o["j"][k]) > jtol[k]]
+            if badj:
+                k = badj[0]
+                chk.fail("kernel target equals (1-b) log q + b (log L + log pi) + log|J| at the pre-image", case,
+                         f"point {k} (z={np.asarray(c['z'])[k].tolist()}): the log-Jacobian of the pre-image map used is {o['j'][k]!r}, "
+                         f"log|det dx/dz| in closed form is {jref[k]!r}", {**sig, "clause": "jacobian"})
         bad = [k for k in range(len(exp)) if not core.close(float(exp[k]), float(o["out"][k]), rtol, tol_abs)]
         if bad:
             k = bad[0]
